@@ -53,6 +53,8 @@ type LalConf struct {
 	Auth             map[string]bool `json:"auth,omitempty"`
 	AuthKey          string          `json:"auth_key,omitempty"`
 	AuthOverride     string          `json:"auth_override,omitempty"`
+	// NoHook: do not install the stream hook (lal counts a hook as a consumer of the stream)
+	NoHook bool `json:"no_hook,omitempty"`
 }
 
 func (c LalConf) JSON() []byte {
@@ -189,13 +191,10 @@ func StartWorld(k *sim.Kernel, conf LalConf, mods ...logic.ModOption) *World {
 	hls.ZzSetFsl(k.FS.Fsl())
 	w.Srv = logic.NewLalServer(all...)
 	w.Hook = &HookRecorder{k: k}
-	w.Srv.WithOnHookSession(func(uniqueKey string, streamName string) logic.ICustomizeHookSessionContext {
-		w.Hook.mu.Lock()
-		defer w.Hook.mu.Unlock()
-		hs := &HookSession{UniqueKey: uniqueKey, Stream: streamName, StartStep: k.Step()}
-		w.Hook.Sessions = append(w.Hook.Sessions, hs)
-		return hookCtx{w.Hook, hs}
-	})
+	if !conf.NoHook {
+		w.installHook(k)
+	}
+
 	k.Go("server.RunLoop", func() {
 		w.runErr = w.Srv.RunLoop()
 		w.runDone = true
@@ -317,3 +316,13 @@ func (w *World) Api(name, path string, body []byte) ApiResult {
 
 // Observe registers f to run at every quiescent point.
 func (w *World) Observe(f func()) { w.observers = append(w.observers, f) }
+
+func (w *World) installHook(k *sim.Kernel) {
+	w.Srv.WithOnHookSession(func(uniqueKey string, streamName string) logic.ICustomizeHookSessionContext {
+		w.Hook.mu.Lock()
+		defer w.Hook.mu.Unlock()
+		hs := &HookSession{UniqueKey: uniqueKey, Stream: streamName, StartStep: k.Step()}
+		w.Hook.Sessions = append(w.Hook.Sessions, hs)
+		return hookCtx{w.Hook, hs}
+	})
+}
